@@ -152,6 +152,14 @@ def _pool(ctx):
         if fmt is None:
             continue
         calls.append(["load_one", str(p), fmt])
+    # the same loads with the format detected from the file name (several patterns can match one name, e.g.
+    # `*.cp2k.out` and `*.out`): detection may not depend on what was detected before
+    byname = [p for p in corpus.files(max_size=ctx.n(60_000, 200_000)) if p.name.endswith((".out", ".log", ".xyz", ".molden", ".json"))
+              or p.name.startswith(("POSCAR", "CHGCAR", "LOCPOT", "FCIDUMP"))]
+    rng.shuffle(byname)
+    byname.sort(key=lambda p: not p.name.endswith(".out"))
+    for p in byname[: ctx.n(18, 80)]:
+        calls.append(["load_one", str(p), None])
     for p in files[: ctx.n(6, 30)]:
         fmt = corpus.select_fmt(p, "load_many")
         if fmt:
